@@ -66,8 +66,9 @@ def main():
             dst = os.path.join(VERIF, 'seeded', keep)
             os.makedirs(dst, exist_ok=True)
             # the change as a plain patch against the /repo HEAD it was confirmed on (re-based if later fix: commits moved the lines)
-            rc2, rebased = sh(['git', '-C', wt, 'diff'])
-            open(os.path.join(dst, 'patch.diff'), 'w').write(rebased if rc2 == 0 and rebased.strip() else open(os.path.join(d, 'patch.diff')).read())
+            rc2, rebased = sh(['git', '-C', wt, 'diff', 'HEAD'])      # (HEAD: a 3-way apply leaves the change staged)
+            original = open(os.path.join(d, 'patch.diff')).read()
+            open(os.path.join(dst, 'patch.diff'), 'w').write(rebased if rc2 == 0 and rebased.strip() else original)
             if os.path.abspath(d) != os.path.abspath(dst):
                 shutil.copy(demo, dst)
             meta['confirmed'] = {'tests': out['tests'], 'demo_exit_with_change': out['demo_mutant'], 'demo_exit_without_change': out['demo_clean'],
